@@ -20,9 +20,11 @@ mv /tmp/_demo_aside.rs "$DEMO"
 # 2. demo with the change
 cargo test -p "$CRATE" --test "$TNAME" --offline > "$OUT/demo_with_change.log" 2>&1; S2=$?
 # 3. demo without the change
-git stash push -q -- $(git diff --name-only)
+# (no git stash: refs/stash is shared by all worktrees of the repository)
+CHANGED=$(git diff --name-only -- . ':(exclude)*/tests/*')
+git checkout -- $CHANGED
 cargo test -p "$CRATE" --test "$TNAME" --offline > "$OUT/demo_without_change.log" 2>&1; S3=$?
-git stash pop -q
+git apply "$OUT/patch.diff"
 PASSED=$(grep -E '^test result' "$OUT/suite_with_change.log" | awk '{s+=$4} END {print s}')
 echo "suite rc=$S1 passed=$PASSED; demo with change rc=$S2; demo without rc=$S3"
 CONF=false; [ $S1 -eq 0 ] && [ $S2 -ne 0 ] && [ $S3 -eq 0 ] && CONF=true
@@ -36,7 +38,7 @@ import json,sys
 out,i,prop,needs,conf,rc,sig,passed,demo=sys.argv[1:]
 json.dump({"id":i,"property":prop,"origin":"independent sub-agent given only the property text and a scratch worktree","needs_to_manifest":needs,
  "demonstration":demo,"confirmed":conf=="true","what_was_run":["cargo test --workspace --no-fail-fast --offline with the change (demo aside): %s tests passed"%passed,
- "cargo test --test <demo> with the change: fails","same without the change (git stash): passes","VERIF_REPO=<worktree> ./check.sh %s quick -> exit %s"%(prop,rc)],
+ "cargo test --test <demo> with the change: fails","same without the change (git checkout of the changed files): passes","VERIF_REPO=<worktree> ./check.sh %s quick -> exit %s"%(prop,rc)],
  "quick_check_exit":int(rc),"detected":rc=="1","signatures":sig},open(out+"/meta.json","w"),indent=1)
 PY
 rm -f "$OUT"/*.log.tmp
